@@ -22,11 +22,13 @@ BIG = {"a": 9000, "b": 4096, "c": 5000}  # three chunks / exactly one / two chun
 def space(ctx):
     """(capacity, depth bound, sizes, options). Options: split = the I/O of a disk job and the delivery of its result
     are separate events, so requests also interleave with a job whose segment/file work is done but whose callback has
-    not run yet; stale_writers = the 16-minute jump may also happen while a writer is open (the store then treats the
+    not run yet; eager = once per history the jobs launched by the next request run to completion (callback
+    included) before that request returns, as a fast disk thread does; stale_writers = the 16-minute jump may also happen while a writer is open (the store then treats the
     unfinished dataset as abandoned and may page it out)."""
-    quick = [(4, 8, SIZES, {}), (5, 7, SIZES, {}), (13500, 6, BIG, {}), (4, 7, SIZES, {"split": True}), (4, 7, SIZES, {"stale_writers": True})]
+    quick = [(4, 8, SIZES, {}), (5, 7, SIZES, {}), (13500, 6, BIG, {}), (4, 7, SIZES, {"split": True}), (4, 7, SIZES, {"stale_writers": True}),
+             (4, 7, SIZES, {"eager": True})]
     thorough = [(4, 13, SIZES, {}), (5, 12, SIZES, {}), (13500, 10, BIG, {}), (4, 11, SIZES, {"split": True}), (5, 10, SIZES, {"split": True}),
-                (4, 11, SIZES, {"stale_writers": True}), (4, 9, SIZES, {"stale_writers": True, "split": True})]
+                (4, 11, SIZES, {"stale_writers": True}), (4, 9, SIZES, {"stale_writers": True, "split": True}), (4, 11, SIZES, {"eager": True}), (5, 10, SIZES, {"eager": True})]
     return ctx.pick(quick, thorough)
 
 
@@ -41,7 +43,9 @@ def explore(ctx, prop: str, with_liveness: bool):
         if opt.get("split"):
             cfg["split"] = True
         if opt.get("stale_writers"):
-            cfg["age"] = "writers"  # C09 also lets readers grow older than the staleness window
+            cfg["age"] = "writers"
+        if opt.get("eager"):
+            cfg["eager"] = True  # C09 also lets readers grow older than the staleness window
 
         def expand(hist, cfg=cfg):
             w = shmworld.build(cfg, hist)
